@@ -8,7 +8,8 @@ PROPERTY = "C13"
 LEVEL = "model_checking"
 NEEDS_SCHED = True
 RULE = ("the main thread enters Class.buffer_backend(capacity); all thread schedules up to a preemption bound of "
-        "2-thread programs of buffered mutators on {distinct files, two objects on one file, one object}; the main "
+        "2-thread programs of buffered mutators on {distinct files, two objects on one file, one object}, also with an "
+        "unflushed write already sitting in the buffer when the threads start; the main "
         "thread exits the context and observes; oracle = observation (results, exceptions incl. the context exit, "
         "final files, reported buffer size) equals that of some serial order on the implementation; non-trivial = "
         "distinct observations")
@@ -43,7 +44,7 @@ TOPOS = {
 }
 
 
-def build(clsname, topo, names, capname, cap, ops_per_thread=1):
+def build(clsname, topo, names, capname, cap, ops_per_thread=1, predirty=False):
     k = env.kind_of(clsname)
     objects, handles = TOPOS[topo]
     nres = max(objects) + 1
@@ -57,9 +58,17 @@ def build(clsname, topo, names, capname, cap, ops_per_thread=1):
             body.append(("op", handles[t], op, args))
         threads.append(body)
     cfg = seq.Config(clsname, initial=(INIT[k],) * nres, objects=objects, label=clsname)
-    return {"label": "%s/%s/cap-%s/%s" % (clsname, topo, capname, "||".join(names)), "cfg": cfg,
+    prog = {"label": "%s/%s/cap-%s/%s" % (clsname, topo, capname, "||".join(names)), "cfg": cfg,
             "ctx": ("cls", cap), "threads": threads, "pair": "||".join(sorted(names)),
             "topology": topo + ":" + capname, "property": PROPERTY, "module": __name__}
+    if predirty:
+        # the LAST thread's object already has an unflushed write in the buffer when the threads start (made by the
+        # main thread inside the context): a flush forced by the other thread then has something of its to evict
+        h = handles[nthreads - 1]
+        prog["setup"] = (("op", h, "setitem", ("pre", 1)) if k == "dict" else ("op", h, "append", ("pre",)),)
+        prog["label"] += "/predirty"
+        prog["topology"] += ":predirty"
+    return prog
 
 
 def plan(tier, seed):
@@ -73,6 +82,14 @@ def plan(tier, seed):
                     if "read" in (a, b) and (topo == "one-object" or a == b):
                         continue  # shared-object reads are C14; read||read is not a writer program
                     p1.append(build(c, topo, [a, b], capname, cap))
+                if capname == "tiny" and topo != "one-object":
+                    # capacity 'mid': the pre-existing unflushed write fits, the next file that enters the buffer
+                    # (serialized: any access; shared-memory: a write) forces the flush - in the middle of the threads
+                    mid = 1 if env.is_memory_buffered(c) else 40
+                    w = "setitem_diff" if k == "dict" else "append"
+                    for a, b in (("read", w), (w, w), ("read", "reset"), (w, "reset")) + \
+                            ((("read", "clear"), ("reset", w), ("clear", w)) if tier != "quick" else ()):
+                        p1.append(build(c, topo, [a, b], "mid", mid, predirty=True))
                 if tier != "quick":
                     for a, b in itertools.combinations_with_replacement(CORE3[k], 2):
                         p2.append(build(c, topo, [a, b], capname, cap))
